@@ -1105,8 +1105,10 @@ func (fr *frame) enterLoop(li *loopInfo, st *State, reach string) *State {
 	for _, c := range invs {
 		args, ok := fr.loopEnv(li, c, entryVal, st)
 		if !ok {
-			u.warn("stale loop invariant %s loop %d: variable not found", funcName(fr.fn), li.ordinal)
-			fr.u.eng.stale = append(fr.u.eng.stale, fmt.Sprintf("%s loop %d invariant %s", funcName(fr.fn), li.ordinal, c.Label))
+			// the invariant names a loop variable that no longer exists (the loop was rewritten): it is dropped with a note,
+			// and the proof stands or falls with the automatic invariants - the failure, if any, shows at the postcondition
+			u.warn("loop invariant %s of %s loop %d dropped: variable not found", c.Label, funcName(fr.fn), li.ordinal)
+			u.rebinds = append(u.rebinds, fmt.Sprintf("%s: invariant %s of loop %d dropped (its variable no longer exists)", funcName(fr.fn), c.Label, li.ordinal))
 			continue
 		}
 		t := fr.evalSpec(c, args, st, nil)
@@ -1191,6 +1193,9 @@ func (fr *frame) enterLoop(li *loopInfo, st *State, reach string) *State {
 		}
 		u.assume(reach, fr.evalSpec(c, args, ns, nil))
 	}
+	// 4. invariants that hold by the shape of the loop
+	fr.autoCounting(li, entryVal, ns, reach)
+	fr.autoSearched(li, ri, ns, reach)
 	if ri != nil && riLen != "" {
 		ev := entryVal(ri)
 		u.oblige(fr.obName("inv-init", fmt.Sprintf("loop%d.rangeindex", li.ordinal)), "inv-init", nil, reach,
